@@ -145,7 +145,7 @@ def judge_thread(sc, r, res, desc):
     for sub in w.submitted:
         res['monitor_evaluations']['dispatcher-submit'] = \
             res['monitor_evaluations'].get('dispatcher-submit', 0) + 1
-        if sub['t'] < sub['execute_at']:
+        if sub['execute_at'] is not None and sub['t'] < sub['execute_at']:
             viol('dispatched-early',
                  'the dispatcher submitted job %s at t=%s (exact %s) but '
                  'its execution time is t=%s' % (
